@@ -125,8 +125,13 @@ package sliceio
 //@   ensures  end-only-when-drained: implies(!ok && s.err == EOF && old(s.err) == nil, s.beg == s.end && s.atEOF)
 //@   ensures  buffered-rows-first: implies(old(s.err) == nil && old(s.started) && old(s.beg) < old(s.end) && len(out) == tyNumOut(s.typ) && ok, s.reader.nreads == old(s.reader.nreads))
 //@   ensures  read-errors-reported: implies(s.reader.nreads > old(s.reader.nreads) && s.reader.lastErr != nil && s.reader.lastErr != EOF, !ok && s.err == s.reader.lastErr)
+//@   ensures  wrong-arity-rejected-on-every-call: implies(old(s.err) == nil && len(out) != tyNumOut(s.typ), !ok && s.err != nil && s.err != EOF && s.reader.nreads == old(s.reader.nreads) && s.beg == old(s.beg) && s.end == old(s.end))
+//@   ensures  wrong-type-rejected-on-every-call: implies(old(s.err) == nil && len(out) == tyNumOut(s.typ) && exists(i, 0, len(out), dynRType(out[i]) != rtPtrTo(tyOut(s.typ, i))), !ok && s.err != nil && s.err != EOF && s.reader.nreads == old(s.reader.nreads) && s.beg == old(s.beg) && s.end == old(s.end))
+//@   ensures  rows-only-into-matching-destinations: implies(ok, len(out) == tyNumOut(s.typ) && forall(i, 0, len(out), dynRType(out[i]) == rtPtrTo(tyOut(s.typ, i))))
 //@   ensures  still-buffered: scanBuffered(s)
 //@   modifies s.err, s.started, s.in, s.beg, s.end, s.atEOF, ColMem, colClock, SReader.nreads, SReader.lastN, SReader.lastErr, rowsSupplied, sawRowsWithEOF
+//@   loop 1 invariant s.err == nil && old(s.err) == nil && len(out) == tyNumOut(s.typ) && forall(j, 0, range_idx, dynRType(out[j]) == rtPtrTo(tyOut(s.typ, j))) && s.beg == old(s.beg) && s.end == old(s.end) && s.started == old(s.started) && s.reader.nreads == old(s.reader.nreads)
+//@   loop 2 invariant types-checked: len(out) == tyNumOut(s.typ) && forall(j, 0, len(out), dynRType(out[j]) == rtPtrTo(tyOut(s.typ, j)))
 //@   loop 2 invariant s.err == nil && old(s.err) == nil && s.started && scanBuffered(s) && s.reader == old(s.reader) && s.reader.nreads >= old(s.reader.nreads) && implies(s.reader.nreads > old(s.reader.nreads), s.reader.lastErr == nil || s.reader.lastErr == EOF)
 //@   loop 2 invariant implies(s.reader.nreads == old(s.reader.nreads), s.beg == ite(old(s.started), old(s.beg), 0) && s.end == ite(old(s.started), old(s.end), 0))
 //@   loop 2 invariant implies(old(s.started) && old(s.beg) < old(s.end), s.reader.nreads == old(s.reader.nreads))
